@@ -303,7 +303,7 @@ func indexByte(s string, b byte) int {
 	return -1
 }
 
-const ruleC23 = "same generator as C22; after each successful run every non-world source account never declared unbounded is compared with min(initial, -largest declared bound) per asset; non-trivial = successful run in which a bounded source either received funds earlier in the script and then spent, or started negative; distinct = by script text + variables + balances"
+const ruleC23 = "same generator as C22, and in one case out of five a focused one (one bounded account backs several non-adjacent parts of a funding whose remainder is given back - unexhausted max, account variable equal to a literal account, allotment naming it twice, kept remainder - and is then drawn on again for everything or for an amount around what it has left); after each successful run every non-world source account never declared unbounded is compared with min(initial, -largest declared bound) per asset; non-trivial = successful run in which a bounded source either received funds earlier in the script and then spent, or started negative; distinct = by script text + variables + balances"
 
 func TestC23(t *testing.T) {
 	st := stats.New("C23", "exploration", ruleC23)
@@ -311,7 +311,12 @@ func TestC23(t *testing.T) {
 	n := stats.N(10000, 40000)
 	st.Set("requested_checks", n)
 	stats.Check(t, n, 23, func(rt *rapid.T) {
-		p := GenProgram(rt, Opts{MaxStmts: 4, MaxDepth: 3, BigAmount: false})
+		var p *Program
+		if rapid.IntRange(0, 4).Draw(rt, "focusedRepay") == 0 {
+			p = GenRepayProgram(rt)
+		} else {
+			p = GenProgram(rt, Opts{MaxStmts: 4, MaxDepth: 3, BigAmount: false})
+		}
 		checkC23(rt, st, p)
 		st.Add("completed_checks", 1)
 	})
